@@ -217,6 +217,13 @@ func freezeTree(fn *ssa.Function) []*ssa.Function {
 	work := []*ssa.Function{fn}
 	for i := 0; i < len(work); i++ {
 		eachInstr(work[i], func(in ssa.Instruction) {
+			// function literals created here (the body of `for e := range ht.inOrder { e.key.Freeze() }`)
+			if mc, isMC := in.(*ssa.MakeClosure); isMC {
+				if lit, isFn := mc.Fn.(*ssa.Function); isFn && lit.Blocks != nil && !seen[lit] && len(seen) <= 12 && strings.HasPrefix(fnPkgPath(lit), modPath) {
+					seen[lit] = true
+					work = append(work, lit)
+				}
+			}
 			ci, ok := in.(ssa.CallInstruction)
 			if !ok {
 				return
